@@ -79,6 +79,16 @@ def from_ast(n, fundefs: set[str]):
     return [name, kids]
 
 
+def _subst(m, env):
+    if m[0] == "ci":
+        return env.get(m[1], m)
+    if m[0] in ("cn", "csym"):
+        return m
+    if m[0] == "call":
+        return ["call", m[1], [_subst(k, env) for k in m[2]]]
+    return [m[0], [_subst(k, env) for k in m[1]]]
+
+
 def _num(v: float) -> str:
     if v != v or v in (float("inf"), float("-inf")):
         raise Outside("inf / nan value")
@@ -129,8 +139,7 @@ def suite_to_doc(path: Path) -> dict:
         raise Outside("initial assignment on a compartment")
     species = []
     for s in m.getListOfSpecies():
-        if s.getBoundaryCondition() or s.getConstant():
-            raise Outside("boundary / constant species")
+        fixed = bool(s.getBoundaryCondition() or s.getConstant())
         if s.isSetConversionFactor():
             raise Outside("conversionFactor")
         if s.getId() in ruled:
@@ -146,7 +155,7 @@ def suite_to_doc(path: Path) -> dict:
         if s.getHasOnlySubstanceUnits() and not is_amount and s.getId() in ia_syms:
             raise Outside("initial assignment on a hasOnlySubstanceUnits species given as concentration")  # see design notes
         species.append({"id": s.getId(), "comp": s.getCompartment(), "init": init, "isAmount": is_amount,
-                        "hosu": bool(s.getHasOnlySubstanceUnits())})
+                        "hosu": bool(s.getHasOnlySubstanceUnits()), "fixed": fixed})
     sids = {s["id"] for s in species}
     params = []
     for p in m.getListOfParameters():
@@ -174,8 +183,11 @@ def suite_to_doc(path: Path) -> dict:
         kl = r.getKineticLaw()
         if kl is None or kl.getMath() is None:
             raise Outside("reaction without kinetic law")
-        if kl.getNumLocalParameters() or kl.getNumParameters():
-            raise Outside("local parameter")
+        local = {}
+        for lp in list(kl.getListOfLocalParameters()) or list(kl.getListOfParameters()):
+            if not lp.isSetValue():
+                raise Outside("local parameter without value")
+            local[lp.getId()] = ["cn", _num(lp.getValue())]
         sides = []
         for lst in (r.getListOfReactants(), r.getListOfProducts()):
             side = []
@@ -193,7 +205,10 @@ def suite_to_doc(path: Path) -> dict:
                     sref_ids.add(rid)
                 side.append([sr.getSpecies(), _num(sr.getStoichiometry()) if sr.isSetStoichiometry() else None, rid])
             sides.append(side)
-        rxns.append({"id": r.getId(), "reactants": sides[0], "products": sides[1], "law": from_ast(kl.getMath(), fundefs)})
+        law = from_ast(kl.getMath(), fundefs)
+        if local:
+            law = _subst(law, local)  # a local parameter shadows every global symbol of its name inside this law
+        rxns.append({"id": r.getId(), "reactants": sides[0], "products": sides[1], "law": law})
     known = sids | pids | {c for c, _ in comps} | sref_ids | {r["id"] for r in rxns}
     for k in ruled:
         if k not in pids and k not in sref_ids:
@@ -245,9 +260,12 @@ def classify() -> tuple[list[tuple[int, Path, dict]], dict[str, int]]:
     return inside, why
 
 
-def states_for(doc, rng) -> list:
-    """the document's own initial amounts cannot be known without evaluating it; three generic positive states"""
+def states_for(doc, rng, fixed_amounts=None) -> list:
+    """three generic positive states; a boundary / constant species keeps the amount the document gives it (the
+    imported model may hold it as a parameter)"""
+    fixed_amounts = fixed_amounts or {}
     sts = []
     for _ in range(3):
-        sts.append([[s["id"], rng.choice(["1/2", "1", "3/2", "2", "3", "1/4"])] for s in doc["species"]])
+        sts.append([[s["id"], fixed_amounts.get(s["id"]) or rng.choice(["1/2", "1", "3/2", "2", "3", "1/4"])]
+                    for s in doc["species"]])
     return sts
